@@ -399,7 +399,7 @@ def report(prop, tier, seed, results, wall, known_all):
         line = f"[{prop}] {r['id']:<34} {r['verdict']:<14} paths={r['paths']:<5} queries={r['queries']:<6} unsat={r['unsat']:<5} solver={r['solver_s']:.1f}s wall={r['wall_s']:.1f}s mode={r.get('mode')}"
         print(line)
         for n in r.get("notes", []):
-            print("    note:", n.strip()[:1500])
+            print("    note:", n.strip()[-1800:])
     if rc == 0 and bad:
         rc = 3
         print(f"HARNESS-INCONCLUSIVE property={prop}: " + ", ".join(f"{r['id']}={r['verdict']}" for r in bad))
